@@ -21,9 +21,10 @@ VARIANTS = [
 RULE = ("case = a history of events on one dataset (POST /entities with any combination of full-sync start/id/end headers and "
         "sync ids none/1/2, POST /transactions writes, start/page/end/failure of 2 fullsync job runs - issued either as datasetSink calls or, in half of the "
         "cases, by the real FullSyncPipeline.sync over a scripted source - 'all outstanding lease timers fire', 'time passes, less than a lease' and 'the timers older than that fire'), entities over "
-        "6 ids x 3 contents x deleted flag; well-formed syncs with 0-3 disturbances inserted plus unconstrained random histories "
+        "6 ids x 3 contents (+2 with a nested deleted sub-entity) x deleted flag; well-formed syncs with 0-3 disturbances inserted plus unconstrained random histories "
         "and a family 'leased sync, request rejected for its sync id, silence past the lease, then the sync's batches/end', "
-        "a family 'fullsync job run through the real pipeline with none / a capped / an uncapped log error handler and a page "
+        "families 'a sync omits live entities whose json contains a deleted nested sub-entity' and 'runs of jobs with the real "
+        "httpDatasetSink (reused sink object) aborted / re-run / overlapping', a family 'fullsync job run through the real pipeline with none / a capped / an uncapped log error handler and a page "
         "containing an entity the sink refuses', a family 'sync during which entities arrive only through a transaction' and a family 'leased sync, pause, re-start with "
         "the same id / job start / refresh / rejected request / nothing, old timers fire, the sync's batches and end' "
         "(thorough: also all 1000 three-event continuations over a 10-event alphabet); after every event the status class, the "
@@ -195,6 +196,20 @@ def _witness_cases():
         mk([plain(BASE), jstart(1), jbatch(1, [(1, 2, 0)]), plain([(4, 1, 0)]), http([(5, 1, 0)], False, 3), EXPIRE,
             jbatch(1, [(2, 2, 0)]), jend(1)]),
         mk([plain(BASE), jstart(1), plain([]), http([], False, 3, True), EXPIRE, plain([(2, 2, 0)]), jend(1)]),
+        # live entities whose stored json contains "deleted":true inside a nested sub-entity (contents 7, 8) are
+        # tombstoned like any other entity the completed sync did not contain
+        mk([plain([(1, 1, 0), (2, 7, 0), (3, 1, 0), (4, 8, 0)]), http([(1, 2, 0)], True, 1), http([], False, 1, True),
+            plain([(2, 1, 0)])]),
+        mk([plain([(1, 7, 0), (2, 7, 0), (3, 8, 1)]), jstart(1), jbatch(1, [(2, 2, 0)]), jend(1)]),
+        # a fullsync job with the real httpDatasetSink (one sink object, reused by the job's runs) posting to this hub:
+        # run 1 aborts after a batch, run 2 is a new sync (fresh id, start header) and completes: what only the aborted
+        # run had posted is tombstoned
+        mk([plain(BASE + [(4, 1, 0)]), hstart(1), hbatch(1, [(1, 2, 0), (2, 2, 0)]), hstart(1), hbatch(1, [(2, 3, 0), (3, 3, 0)]),
+            hend(1), hend(1), hbatch(1, [(4, 5, 0)])]),
+        mk([plain(BASE), hstart(1), hbatch(1, [(1, 2, 0)]), hbatch(1, [(2, 2, 0)]), dict(EXPIRE), hbatch(1, [(3, 2, 0)]), hend(1),
+            hstart(1), hbatch(1, [(1, 3, 0)]), hend(1)]),
+        mk([plain(BASE), hstart(1), hbatch(1, [(1, 2, 0)]), hstart(2), hbatch(2, [(2, 2, 0)]), hbatch(1, [(3, 2, 0)]), hend(2),
+            hend(1)]),
         # a fullsync job run that is cut short by a refused entity (capped log handler / no handler) is an abandoned
         # sync: what was in front of the refused entity is written, nothing is tombstoned, the next run starts over;
         # with an uncapped log handler the run goes on and completes
@@ -449,10 +464,59 @@ def refused_entity_history(rng):
     return evs, mode
 
 
+def nested_tombstone_history(rng):
+    """the dataset holds live entities with a nested sub-entity flagged deleted (contents 7/8, written once each);
+    a sync that does not contain some of them completes"""
+    pop = [(i, rng.choice([1, 7, 8]), 1 if rng.chance(1, 8) else 0) for i in range(1, rng.range(3, 6))]
+    if not any(c in (7, 8) for _, c, _ in pop):
+        pop[0] = (pop[0][0], 7, 0)
+    evs = [plain(pop)]
+    r = rng.below(3)
+    if r == 0:
+        sid = rng.range(0, 2)
+        evs.append(http(rand_ents(rng, 2), True, sid))
+        if rng.chance(1, 2):
+            evs.append(txn(rand_ents(rng, 2)))
+        evs.append(http(rand_ents(rng, 2), False, sid, True))
+    elif r == 1:
+        n = rng.range(1, 2)
+        evs += [jstart(n), jbatch(n, rand_ents(rng, 3)), jend(n)]
+    else:
+        n = rng.range(1, 2)
+        evs += [hstart(n), hbatch(n, rand_ents(rng, 3) or [(1, 2, 0)]), hend(n)]
+    if rng.chance(1, 3):
+        evs.append(plain(rand_ents(rng, 2)))
+    return evs
+
+
+def http_sink_history(rng):
+    """runs of fullsync jobs with the real httpDatasetSink: aborted after 0-2 batches, completed, overlapping with
+    another job's runs, with other requests and lease expiries in between"""
+    evs = [plain([(i, 1, 0) for i in range(1, rng.range(4, 6))])]
+    nexp = 0
+    for _ in range(rng.range(1, 3)):
+        n = rng.range(1, 2)
+        evs.append(hstart(n))
+        for _ in range(rng.range(0, 2)):
+            evs.append(hbatch(n, rand_ents(rng, 3)))
+            if rng.chance(1, 5):
+                evs.append(rng.choice([plain(rand_ents(rng, 2)), txn(rand_ents(rng, 2)), http(rand_ents(rng, 2), False, rng.range(0, 2)),
+                                       hbatch(3 - n, rand_ents(rng, 2)), hstart(3 - n), jstart(n)]))
+            if rng.chance(1, 8) and nexp < 2:
+                evs.append(dict(EXPIRE))
+                nexp += 1
+        if rng.chance(3, 5):
+            evs.append(hend(n))           # otherwise the run is aborted: the sink object keeps its state
+    if evs[-1]["k"] != "hend":
+        n = evs[-1].get("n", 1)
+        evs += [hstart(n), hbatch(n, rand_ents(rng, 3) or [(2, 2, 0)]), hend(n)]
+    return evs
+
+
 def gen(rng, tier):
     out = []
     if tier == "quick":
-        n_t, n_r = 110, 110
+        n_t, n_r = 100, 100
     elif tier == "search":
         n_t, n_r = 250, 250
     else:
@@ -470,6 +534,10 @@ def gen(rng, tier):
     for _ in range({"quick": 40, "search": 80}.get(tier, 400)):
         evs, mode = refused_entity_history(rng)
         out.append(mk(evs, True, mode))
+    for _ in range({"quick": 30, "search": 60}.get(tier, 300)):
+        out.append(mk(nested_tombstone_history(rng), rng.chance(1, 2)))
+    for _ in range({"quick": 50, "search": 80}.get(tier, 500)):
+        out.append(mk(http_sink_history(rng), rng.chance(1, 2)))
     if tier == "thorough":
         # every history of length 3 over a small alphabet after the common prefix (no timers: cheap)
         alpha = [http([(1, 2, 0)], True, 1), http([(2, 2, 0)], False, 1), http([(2, 2, 0)], False, 0),
@@ -754,7 +822,7 @@ def attribute(c, o):
         return None
     m = _Cur()
     steps = _obs_steps(o)
-    evs = c["events"]
+    evs = translate(c, o)
     if len(steps) != len(evs):
         return None
     verdict = None
@@ -793,7 +861,7 @@ def _mirror_differs(c, o):
     steps = _obs_steps(o)
     if len(steps) != len(c["events"]):
         return True
-    for e, s in zip(c["events"], steps):
+    for e, s in zip(translate(c, o), steps):
         if m.obs(m.step(e, c.get("on_error", ""))) != s:
             return True
     return False
